@@ -540,9 +540,9 @@ func responseI(r *core.Rand, ops *[]string, id string, g *genCfg, fast bool, spa
 func (P) Gen(r *core.Rand, tier string, emit func([]string)) {
 	nMain, nCfg, nPar, nSlow := 70, 40, 6, 1
 	nInter, nFlight, nE2E := 50, 30, 24
-	nTimed := 3
+	nTimed, nFault := 3, 30
 	if tier == "thorough" {
-		nTimed = 30
+		nTimed, nFault = 30, 500
 		nMain, nCfg, nPar, nSlow = 1500, 600, 60, 4
 		nInter, nFlight, nE2E = 1000, 500, 400
 	}
@@ -794,6 +794,37 @@ func (P) Gen(r *core.Rand, tier string, emit func([]string)) {
 			ops = append(ops, fmt.Sprintf("req c0 n - %d", r.Range(4000, 9000))) // the unmatched URL is not slowed down... nor sped up
 		}
 		ops = append(ops, "dial c1 - 10", fmt.Sprintf("req c1 %s %d %d%s", id, k+r.Range(1, 3000), r.Range(8000, 12000), r.Pick("", "", " c", " h10")))
+		ops = append(ops, "leak")
+		emit(ops)
+	}
+	// J. faults of the wrapped connection: Close reporting an error, a Write failing mid-round, a failing Read, a
+	// second Close - whatever they report, delivered bytes stay a prefix and closing releases the buckets
+	for i := 0; i < nFault; i++ {
+		fast := r.Chance(1, 2)
+		span := r.Pick2(60, 300)
+		g := genConfig(r, true, fast, span)
+		ops := []string{g.tok, "conn k0", "conn k1"}
+		if r.Chance(1, 2) {
+			response(r, &ops, "k0", &g, fast, span)
+		}
+		switch r.Intn(5) {
+		case 0, 1: // the wrapped Close reports an error
+			ops = append(ops, "fault k0 close", "close k0")
+			if r.Bool() {
+				ops = append(ops, "reclose k0")
+			}
+		case 2: // a Write of the wrapped connection fails after n more bytes, anywhere in the next response
+			ops = append(ops, fmt.Sprintf("fault k0 write %d", r.Intn(span)))
+			response(r, &ops, "k0", &g, fast, span)
+		case 3:
+			ops = append(ops, "fault k0 read", "read k0", "close k0", "reclose k0")
+		default:
+			ops = append(ops, "close k0", "reclose k0", "reclose k0")
+		}
+		response(r, &ops, "k1", &g, fast, span)
+		if r.Bool() {
+			ops = append(ops, "fault k1 close")
+		}
 		ops = append(ops, "leak")
 		emit(ops)
 	}
